@@ -273,12 +273,9 @@ fn step(s: &dyn ShapeDyn, d: &Desc, img: &[u8], pop: &PathOp) -> StepResult {
             if obs.size != tree.extent && !matches!(pop.op, Op::Assign(..)) {
                 res.viol.push(("C13", format!("refused_size/{}", name), format!("size() {} -> {} across a refused call", tree.extent, obs.size)));
             }
-            if !matches!(pop.op, Op::Assign(..)) {
-                let (lo, hi) = pred.keep_on_refusal;
-                if after[lo..hi.min(n)] != img[lo..hi.min(n)] {
-                    res.viol.push(("C13", format!("refused_bytes/{}", name), format!("bytes inside the container's extent {}..{} changed across a refused call: {} -> {}", lo, hi, hex(&img[lo..hi.min(n)]), hex(&after[lo..hi.min(n)]))));
-                }
-            }
+            // (bytes are judged by C14's footprint rule only: C13 speaks of the observable state, and a
+            // refused call that rewrites padding inside the extent is not observable)
+            let _ = pred.keep_on_refusal;
         }
         // ---- C14: footprint
         let mut allowed = vec![false; n];
